@@ -17,6 +17,8 @@ for d in sorted(glob.glob("/verif/seeded/*/meta.json")):
             classes.append(x.group(1).split("-", 1)[1] + (" (no-failing-input-found)" if x.group(2) else ""))
     broken = [re.sub(r".*BROKEN obligation ([^:]+:[^:]+):.*", r"\1", b) for b in oc.get("broken_obligations", [])]
     caught = ("; ".join(classes[:4]) + (" …" if len(classes) > 4 else "")) if oc.get("detected") else "**missed**"
+    if not oc.get("detected") and m.get("reported_by_other_checks"):
+        caught = "**missed by its own check**; reported by " + ", ".join(m["reported_by_other_checks"])
     if broken:
         caught += " + broken obligations (" + ", ".join(sorted(set(broken))[:2]) + ")"
     note = m.get("note", "")
